@@ -72,8 +72,6 @@ def parsePlan (s : String) : Option (List (Nat × Fault)) :=
 
 def parseOp (w : String) : Option (Op Unit) :=
   if w == "T" then some .tick
-  else if w == "I0" then some (.init .ok)
-  else if w == "I1" then some (.init .error)
   else match (w.drop 1).toString.toNat? with
     | none => none
     | some n =>
@@ -90,15 +88,27 @@ structure FileSpec where
   outreg : Bool
   dstExists : Bool
   fin : Fin
+  pre : List (Op Unit)
+  init : InitRes
   ops : List (Op Unit)
+
+/-- split "R8192.I0.T.W100" at the coder_init marker -/
+def splitInit (ws : List String) : List String × InitRes × List String :=
+  let pre := ws.takeWhile (fun w => w != "I0" && w != "I1")
+  let rest := ws.drop pre.length
+  match rest with
+  | m :: post => (pre, if m == "I1" then .error else .ok, post)
+  | [] => (pre, .ok, [])
 
 def parseFile (s : String) : Option FileSpec :=
   match s.splitOn ":" with
   | [sz, sk, g, orr, de, fin, ops] => do
     let size ← sz.toNat?
-    let ops ← (if ops == "-" then some [] else (ops.splitOn ".").mapM parseOp)
+    let (preW, ini, postW) := splitInit (if ops == "-" then [] else ops.splitOn ".")
+    let pre ← preW.mapM parseOp
+    let ops ← postW.mapM parseOp
     some { size, skip := sk == "1", gid := g == "1", outreg := orr == "1", dstExists := de == "1",
-           fin := if fin == "ok" then .ok else .error, ops }
+           fin := if fin == "ok" then .ok else .error, pre, init := ini, ops }
   | _ => none
 
 def runTo (c : Cfg Unit) (limit : Nat) : Nat → St Unit → St Unit
@@ -137,7 +147,7 @@ def doRun (ws : List String) : Option String := do
         go rest k exitSt abort crashed (("#" ++ renderFs s0) :: acc)
       else
         let c : Cfg Unit := { o, srcSize := f.size, srcSkip := f.skip, gidDiffers := f.gid, outRegular := f.outreg,
-                              ops := f.ops, fin := f.fin, fault, signalAt := sig, moveAt := move, zero := () }
+                              pre := f.pre, init := f.init, ops := f.ops, fin := f.fin, fault, signalAt := sig, moveAt := move, zero := () }
         let s0 := start c f.dstExists k exitSt
         -- a process that is to die before its (k+1)-th call makes no call at all when the limit is already reached
         let s := runTo c limit 1000000 s0
